@@ -17,11 +17,14 @@ HERE = os.path.dirname(os.path.dirname(os.path.abspath(__file__)))
 
 
 # ------------------------------------------------------------------------------------------------
-def build_replayer(repo, scratch):
+def build_replayer(repo, scratch, release=False):
     """build replay/ against a copy of the current tree; returns path of the binary or None"""
     d = os.path.join(scratch, 'replay')
-    if os.path.exists(os.path.join(d, 'bin_path')):
-        return open(os.path.join(d, 'bin_path')).read()
+    tag = 'bin_path_release' if release else 'bin_path'
+    if os.path.exists(os.path.join(d, tag)):
+        return open(os.path.join(d, tag)).read()
+    if os.path.exists(d):
+        return _build_in(d, release, tag)
     shutil.copytree(os.path.join(HERE, 'replay'), d, ignore=shutil.ignore_patterns('target'))
     lib = os.path.join(scratch, 'replay_lib')
     os.makedirs(lib)
@@ -30,6 +33,10 @@ def build_replayer(repo, scratch):
         shutil.copy(os.path.join(repo, f), os.path.join(lib, f))
     toml = open(os.path.join(d, 'Cargo.toml')).read().replace('path = "/repo"', 'path = "%s"' % lib)
     open(os.path.join(d, 'Cargo.toml'), 'w').write(toml)
+    return _build_in(d, release, tag)
+
+
+def _build_in(d, release, tag):
     # dependencies are compiled once into a shared cache (cargo locks it); only the library copy is rebuilt per run
     tdir = os.path.join(HERE, '.cache', 'replay_target')
     os.makedirs(tdir, exist_ok=True)
@@ -38,12 +45,13 @@ def build_replayer(repo, scratch):
     import fcntl
     with open(os.path.join(tdir, '.lock'), 'w') as lk:
         fcntl.flock(lk, fcntl.LOCK_EX)   # build + copy must not interleave with another check's build in the shared cache
-        r = subprocess.run(['cargo', 'build', '--offline', '-q'], cwd=d, env=env, stdout=subprocess.PIPE, stderr=subprocess.STDOUT, text=True)
+        r = subprocess.run(['cargo', 'build', '--offline', '-q'] + (['--release'] if release else []), cwd=d, env=env,
+                           stdout=subprocess.PIPE, stderr=subprocess.STDOUT, text=True)
         if r.returncode != 0:
             return None
-        p = os.path.join(d, 'fpreplay.bin')
-        shutil.copy(os.path.join(tdir, 'debug', 'fpreplay'), p)
-    open(os.path.join(d, 'bin_path'), 'w').write(p)
+        p = os.path.join(d, 'fpreplay.release.bin' if release else 'fpreplay.bin')
+        shutil.copy(os.path.join(tdir, 'release' if release else 'debug', 'fpreplay'), p)
+    open(os.path.join(d, tag), 'w').write(p)
     return p
 
 
@@ -488,8 +496,42 @@ BOUNDED_STANDINS = {
 }
 
 
+def profile_agreement(repo, scratch):
+    """C17 (bounded): a debug and a release build of the replay crate must answer every request of the corpora identically
+    (the embedded clock second normalised)"""
+    f = dict(id='BOUNDED.profile_agreement', clause='BOUNDED.profile_agreement', kind='bounded', fn='the whole library, debug vs release build', cfg='replay',
+             message='', rendered='', repo_file=None, repo_line=None, expr='')
+    dbg = build_replayer(repo, scratch)
+    rel = build_replayer(repo, scratch, release=True)
+    if not dbg or not rel:
+        f['witness_error'] = 'could not build both profiles'
+        return f
+    reqs, seen = [], set()
+    for fam in (family_parse_total, family_parse_numbers, family_options, family_numbers, family_refusal, family_hostile, family_table, family_panics):
+        for c in fam():
+            r = (c['op'],) + tuple(c['input'].split('\t'))
+            if r not in seen:
+                seen.add(r); reqs.append(r)
+    for v in ('-size +16777216T', '-size 18446744073709551615T', '-size -1c', '-amin -5 -o -mtime +2', 'nope', '-perm 7777', '-perm 17777'):
+        reqs.append(('compile', v))
+    a, b = run_requests(dbg, reqs), run_requests(rel, reqs)
+    norm = lambda g: [re.sub(r'\(- \d{9,12} \(', '(- NOW (', x) for x in g]
+    f['witness_search'] = dict(inputs_tried=len(reqs), requests=2 * len(reqs))
+    for r, x, y in zip(reqs, a, b):
+        if norm(x) != norm(y):
+            f['witness'] = dict(public_api_input='\t'.join(r[1:]), request=r[0], observed=dict(debug=[s[:200] for s in x[:2]], release=[s[:200] for s in y[:2]]),
+                                expected='the same answer from both builds')
+            f['replayed'] = True
+            break
+    return f
+
+
 def bounded_standins(pid, repo, scratch):
     out = []
+    if pid == 'C17':
+        f = profile_agreement(repo, scratch)
+        out.append(('BOUNDED.profile_agreement', 'debug and release builds of the library (front end included: outside the verifier) — bounded stand-in: both '
+                    'builds must answer identically on the corpora of the other stand-ins and witness families (about 30k parse/compile requests)', f))
     for name, key, claim in BOUNDED_STANDINS.get(pid, []):
         f = dict(id=name, clause=key, kind='bounded', fn=claim.split(' (')[0], cfg='replay',
                  message=claim, rendered='', repo_file=None, repo_line=None, expr='')
